@@ -104,6 +104,10 @@ impl Eval {
             return Ok(x.clone());
         };
 
+        // A direct eval pushes a call frame without going through a function call, so the
+        // runtime limits have to be checked here too (nested evals are recursion).
+        context.check_runtime_limits()?;
+
         // Because of implementation details the following code differs from the spec.
 
         // 3. Let evalRealm be the current Realm Record.
